@@ -77,6 +77,27 @@ func (C03) Gen(r *simrt.RNG, tier string) core.Case {
 	cfg.Ifaces = false
 	cfg.RepeatPos = r.Chance(1, 5) // func(a, b T): two parameters, one key
 	w := world.GenExact(r, cfg)
+	// a parameter declared by embedding its type, supplied under the type's name
+	if t := &w.Parties[0]; (t.InForm == world.FormStruct || t.InForm == world.FormPtrStruct) && r.Chance(1, 8) {
+		used := map[int]bool{}
+		for _, p := range w.Parties {
+			for _, sl := range append(append([]world.Slot{}, p.In...), p.Out...) {
+				used[sl.Type] = true
+			}
+		}
+		for _, a := range w.Args {
+			used[a.Label.Type] = true
+		}
+		for ty := 6; ty < world.NumStruct; ty++ {
+			if !used[ty] {
+				l := world.Label{Name: fmt.Sprintf("t%d", ty), Type: ty}
+				t.In = append(append([]world.Slot{}, t.In...), world.Slot{Label: l})
+				w.Args = append(w.Args, world.ArgSpec{Kind: world.ArgNamed, Label: l, Spell: world.RandomCase(r, l.Name)})
+				w.Ops[0].Args = append(append([]int{}, w.Ops[0].Args...), len(w.Args)-1)
+				break
+			}
+		}
+	}
 	// call the same Func again with fresh instances of the supplied values
 	n := r.Intn(3)
 	for i := 0; i < n; i++ {
